@@ -242,17 +242,18 @@ def truncKept (ns : Nat → Nat) (s1 : State) (seg : List Frame) : State :=
 theorem captureFinish_busy (s1 : State) (reset : Bool) (seg : List Frame) (b' : Nat) (hlt : b' < s1.mx) :
     captureFinish s1.salt reset seg (busyState s1 b', ⟨1, s1.mx, b'⟩) =
       (busyState s1 b', ⟨⟨1, s1.mx, b'⟩, reset, .busy, none⟩) := by
-  simp [captureFinish, hlt]
+  have h1 : ¬ (s1.mx ≤ b') := by omega
+  simp [captureFinish, branches, List.find?, Cond.holds, applyBranch, Ret.err, hlt]
 
 theorem captureFinish_pinned (s1 : State) (reset : Bool) (seg : List Frame) :
     captureFinish s1.salt reset seg (pinnedState s1, ⟨1, s1.mx, s1.mx⟩) =
       (armedState s1 seg, ⟨⟨1, s1.mx, s1.mx⟩, reset, .none, some seg⟩) := by
-  simp [captureFinish, pinnedState, armedState]
+  simp [captureFinish, branches, List.find?, Cond.holds, applyBranch, pinnedState, armedState]
 
 theorem captureFinish_trunc (ns : Nat → Nat) (s1 : State) (reset : Bool) (seg : List Frame) :
     captureFinish s1.salt reset seg (truncState ns s1, ⟨0, 0, 0⟩) =
       (truncKept ns s1 seg, ⟨⟨0, 0, 0⟩, reset, .none, some seg⟩) := by
-  simp [captureFinish, truncState, truncKept]
+  simp [captureFinish, branches, List.find?, Cond.holds, applyBranch, truncState, truncKept]
 
 theorem inv_armedState {s1 : State} (h1 : Inv s1) (hnw : s1.walEmpty = false) (seg : List Frame)
     (hseg : ckpt s1.rebuilt seg = s1.logical) : Inv (armedState s1 seg) := by
@@ -312,20 +313,7 @@ theorem inv_capture (ns : Nat → Nat) {s : State} (h : Inv s)
   unfold doCapture
   by_cases hwe : s.walEmpty = true
   · simp only [hwe, if_true]
-    obtain ⟨hf, hb, ha⟩ := h.empty hwe
-    have heff : eff s = 0 := by simp [eff, ha]
-    constructor
-    · exact h.closed
-    · exact h.bf_le
-    · intro _; exact ⟨hf, hb, rfl⟩
-    · exact h.filled
-    · intro h0; exact absurd h0 (by simp [Watch.disarm])
-    · simp [eff, Watch.disarm]
-    · intro hd'
-      have := h.chain hd'
-      rw [heff] at this
-      simpa [eff, Watch.disarm, State.rebuilt, State.logical] using this
-    · intro _ _ hm; simp [State.mx, hf] at hm
+    exact h
   · have hnw : s.walEmpty = false := by simpa using hwe
     rw [if_neg hwe]
     dsimp only
@@ -342,7 +330,7 @@ theorem inv_capture (ns : Nat → Nat) {s : State} (h : Inv s)
 
 /-! ### full snapshot attempt -/
 
-theorem inv_full (ns : Nat → Nat) {s : State} (h : Inv s) : Inv (doFull ns s).1 := by
+theorem inv_full (ns : Nat → Nat) {s : State} (h : Inv s) (hdue : s.dueFull = true) : Inv (doFull ns s).1 := by
   unfold doFull
   by_cases hwe : s.walEmpty = true
   · simp only [hwe, if_true]
@@ -362,12 +350,12 @@ theorem inv_full (ns : Nat → Nat) {s : State} (h : Inv s) : Inv (doFull ns s).
     rcases sqliteCheckpoint_cases ns s h.bf_le with ⟨b', hlt, hr⟩ | ⟨_, hr⟩ | hr
     · rw [hr]
       have e : (fullFinish (busyState s b', ⟨1, s.mx, b'⟩)).1 = { busyState s b' with dueFull := true } := by
-        simp [fullFinish]
+        simp [fullFinish, busyState, hdue]
       rw [e]
       exact inv_busy h hnw b' hlt true (fun x => absurd x (by simp))
     · rw [hr]
       have e : (fullFinish (pinnedState s, ⟨1, s.mx, s.mx⟩)).1 = { pinnedState s with dueFull := true } := by
-        simp [fullFinish]
+        simp [fullFinish, pinnedState, hdue]
       rw [e]
       exact inv_full_pinned h hnw
     · rw [hr]
@@ -384,6 +372,125 @@ theorem inv_full (ns : Nat → Nat) {s : State} (h : Inv s) : Inv (doFull ns s).
       · simp [eff, Watch.disarm, State.mx, truncState]
       · intro _; simp [eff, Watch.disarm, State.rebuilt, State.logical, ckpt_nil, truncState]
       · intro _ _ hm; simp [State.mx, truncState] at hm
+
+/-! ### the step interpreter computes `doCapture` / `doCaptureCloseFail` -/
+
+theorem sqliteCheckpoint_segs (ns : Nat → Nat) (s : State) : (sqliteCheckpoint ns s).1.segs = s.segs := by
+  unfold sqliteCheckpoint; split
+  · rfl
+  · split <;> rfl
+
+/-- the bookkeeping either keeps the segment (no error) or leaves the chain alone (error) -/
+theorem captureFinish_shape (pre : Nat) (reset : Bool) (seg : List Frame) (r : State × CkptMeta) :
+    ((captureFinish pre reset seg r).2.err = CkErr.none ∧ (captureFinish pre reset seg r).2.seg = some seg ∧
+      (captureFinish pre reset seg r).1.segs = r.1.segs ++ [seg]) ∨
+    ((captureFinish pre reset seg r).2.err ≠ CkErr.none ∧ (captureFinish pre reset seg r).2.seg = none ∧
+      (captureFinish pre reset seg r).1.segs = r.1.segs) := by
+  unfold captureFinish
+  by_cases h1 : r.2.rc = 0
+  · left; simp [branches, List.find?, Cond.holds, applyBranch, h1]
+  · by_cases h2 : r.2.moved < r.2.pages
+    · right; simp [branches, List.find?, Cond.holds, applyBranch, h1, h2]
+    · by_cases h3 : r.2.moved = r.2.pages
+      · left; simp [branches, List.find?, Cond.holds, applyBranch, h1, h2, h3]
+      · right; simp [branches, List.find?, Cond.holds, h1, h2, h3]
+
+theorem State.segs_append_nil (s : State) : { s with segs := s.segs ++ [] } = s := by
+  cases s; simp
+
+/-- the fold over `incSteps` on a non-empty WAL, in closed form: only the checkpoint's result
+decides how far the function gets -/
+theorem incFold_nonempty (ns : Nat → Nat) (ok : Bool) (s : State) (hnw : s.walEmpty = false) :
+    incSteps.foldl (incStep ns ok) { st := s } =
+      if (cmCheckpoint ns s).2.1.err ≠ CkErr.none then
+        { st := (cmCheckpoint ns s).1, out := (cmCheckpoint ns s).2.1, file := some (cmCheckpoint ns s).2.2,
+          closed := false, deferred := true, returned := true }
+      else if ok then
+        { st := (cmCheckpoint ns s).1, out := (cmCheckpoint ns s).2.1, file := some (cmCheckpoint ns s).2.2,
+          closed := true, deferred := true, returned := false }
+      else
+        { st := { (cmCheckpoint ns s).1 with dueFull := true },
+          out := { (cmCheckpoint ns s).2.1 with err := CkErr.closeFailed }, file := some (cmCheckpoint ns s).2.2,
+          closed := false, deferred := true, returned := true } := by
+  generalize hcm : cmCheckpoint ns s = r
+  by_cases he : r.2.1.err ≠ CkErr.none
+  · simp [incSteps, List.foldl, incStep, hnw, hcm, he]
+  · have he' : r.2.1.err = CkErr.none := by simpa using he
+    cases ok <;> simp [incSteps, List.foldl, incStep, hnw, hcm, he']
+
+theorem incFold_empty (ns : Nat → Nat) (ok : Bool) (s : State) (hwe : s.walEmpty = true) :
+    incSteps.foldl (incStep ns ok) { st := s } = { st := s, returned := true } := by
+  simp [incSteps, List.foldl, incStep, hwe]
+
+/-- `cmCheckpoint` is `doCapture` minus the chain -/
+theorem cmCheckpoint_spec (ns : Nat → Nat) (s : State) (hnw : s.walEmpty = false) :
+    ((cmCheckpoint ns s).2.1.err = CkErr.none ∧
+      doCapture ns s = ({ (cmCheckpoint ns s).1 with segs := (cmCheckpoint ns s).1.segs ++ [(cmCheckpoint ns s).2.2] },
+                        { (cmCheckpoint ns s).2.1 with seg := some (cmCheckpoint ns s).2.2 })) ∨
+    ((cmCheckpoint ns s).2.1.err ≠ CkErr.none ∧
+      doCapture ns s = ((cmCheckpoint ns s).1, { (cmCheckpoint ns s).2.1 with seg := none })) := by
+  have hwe : ¬ s.walEmpty = true := by simp [hnw]
+  unfold cmCheckpoint doCapture
+  rw [if_neg hwe]
+  dsimp only
+  by_cases hc : committed (s.frames.drop (s.watch.check s.salt).2.1) ≠ s.frames.drop (s.watch.check s.salt).2.1
+  · right; rw [if_pos hc, if_pos hc]; exact ⟨by simp, rfl⟩
+  · rw [if_neg hc, if_neg hc]
+    have hseg := sqliteCheckpoint_segs ns { s with watch := (s.watch.check s.salt).1 }
+    generalize hR : captureFinish s.salt (s.watch.check s.salt).2.2 (compact (s.frames.drop (s.watch.check s.salt).2.1))
+        (sqliteCheckpoint ns { s with watch := (s.watch.check s.salt).1 }) = R
+    have hsh := captureFinish_shape s.salt (s.watch.check s.salt).2.2 (compact (s.frames.drop (s.watch.check s.salt).2.1))
+        (sqliteCheckpoint ns { s with watch := (s.watch.check s.salt).1 })
+    rw [hR, hseg] at hsh
+    obtain ⟨R1, R2⟩ := R
+    rcases hsh with ⟨he, hs, hsegs⟩ | ⟨he, hs, hsegs⟩
+    · left
+      refine ⟨he, ?_⟩
+      simp only at he hs hsegs ⊢
+      cases R1; cases R2
+      simp_all
+    · right
+      refine ⟨he, ?_⟩
+      simp only at he hs hsegs ⊢
+      cases R1; cases R2
+      simp_all
+
+/-- **the step list computes the attempt**: running `incSteps` (Close succeeding), then the
+deferred Cancel, is `doCapture` -/
+theorem runInc_ok (ns : Nat → Nat) (s : State) : runInc ns true incSteps s = doCapture ns s := by
+  unfold runInc
+  by_cases hwe : s.walEmpty = true
+  · rw [incFold_empty ns true s hwe]
+    cases s; simp_all [doCapture]
+  · have hnw : s.walEmpty = false := by simpa using hwe
+    rw [incFold_nonempty ns true s hnw]
+    rcases cmCheckpoint_spec ns s hnw with ⟨he, hd⟩ | ⟨he, hd⟩
+    · rw [hd]; simp [he]
+    · rw [hd]; simp [he, State.segs_append_nil]
+
+theorem runInc_closeFail (ns : Nat → Nat) (s : State) : runInc ns false incSteps s = doCaptureCloseFail ns s := by
+  unfold runInc doCaptureCloseFail
+  by_cases hwe : s.walEmpty = true
+  · rw [incFold_empty ns false s hwe]
+    cases s; simp_all [doCapture]
+  · have hnw : s.walEmpty = false := by simpa using hwe
+    rw [incFold_nonempty ns false s hnw]
+    have hcs : (cmCheckpoint ns s).1.segs = s.segs := by
+      unfold cmCheckpoint; dsimp only; split <;> rfl
+    rcases cmCheckpoint_spec ns s hnw with ⟨he, hd⟩ | ⟨he, hd⟩
+    · rw [hd]; simp [he, hcs]
+    · rw [hd]; simp [he, State.segs_append_nil]
+
+theorem inv_captureCloseFail (ns : Nat → Nat) {s : State} (h : Inv s) (hd : s.dueFull = false) :
+    Inv (doCaptureCloseFail ns s).1 := by
+  have h' := inv_capture ns h hd
+  unfold doCaptureCloseFail
+  cases hs : (doCapture ns s).2.seg with
+  | none => simpa [hs] using h'
+  | some sg =>
+    simp only [hs]
+    exact ⟨h'.closed, h'.bf_le, h'.empty, h'.filled, h'.salt, h'.eff_le,
+      fun hd' => absurd hd' (by simp), fun hd' => absurd hd' (by simp)⟩
 
 /-! ### every reachable state satisfies the invariant -/
 
@@ -402,8 +509,15 @@ theorem inv_next (ns : Nat → Nat) (hns : ∀ x, x < ns x) {s : State} (h : Inv
   | capture =>
     simp only [next]; split
     · exact h
-    · exact inv_capture ns h (by simpa using ‹¬ s.dueFull = true›)
-  | full => exact inv_full ns h
+    · rw [runInc_ok]; exact inv_capture ns h (by simpa using ‹¬ s.dueFull = true›)
+  | captureCloseFails =>
+    simp only [next]; split
+    · exact h
+    · rw [runInc_closeFail]; exact inv_captureCloseFail ns h (by simpa using ‹¬ s.dueFull = true›)
+  | full =>
+    simp only [next]; split
+    · exact inv_full ns h ‹_›
+    · exact h
   | needFull =>
     exact ⟨h.closed, h.bf_le, h.empty, h.filled, h.salt, h.eff_le, fun hd => absurd hd (by simp [next]),
       fun hd => absurd hd (by simp [next])⟩
